@@ -223,6 +223,36 @@ func init() {
 		},
 	})
 	eng.Register(&eng.Scenario{
+		Name: "ccall-straggler", Props: []string{"C17"}, MustFinish: true, ObsNames: stdObs,
+		Doc:   "Two CallConcurrently calls issued one after the other by the same goroutine: in call 1 one function returns E1 at once (so the call returns early) while another ignores its context and returns (nil or E2, choice) only when a gate opens - possibly while call 2 is waiting for its own functions (one returns nil at once, one when a second gate opens): call 2 returns nil, only after both of its functions have returned, whatever the straggler of call 1 does",
+		Quick: eng.Bounds{PB: 1}, Thorough: eng.Bounds{PB: 2},
+		Body: func() {
+			bg := context.Background()
+			g1, g2 := &vsched.Gate{}, &vsched.Gate{}
+			stragglerErr := []error{nil, errE2}[vsched.Choose(2)]
+			T("R1", func() { g1.Open() })
+			T("R2", func() { g2.Open() })
+			err1 := ccall.CallConcurrently(bg,
+				func(ctx context.Context) error { return errE1 },
+				func(ctx context.Context) error { g1.Wait(); vsched.CtrSet(c17Ret, 1); return stragglerErr },
+			)
+			if err1 != errE1 && !(err1 == errE2 && stragglerErr == errE2) {
+				fail("C17.wrong-error", "call 1 returned %v", err1)
+			}
+			err2 := ccall.CallConcurrently(bg,
+				func(ctx context.Context) error { vsched.CtrAdd(c17Ran+4, 1); return nil },
+				func(ctx context.Context) error { g2.Wait(); vsched.CtrAdd(c17Ran+8, 1); return nil },
+			)
+			if err2 != nil {
+				fail("C17.wrong-error", "call 2 returned %v, which none of its functions returned (its functions return nil)", err2)
+			}
+			if vsched.Ctr(c17Ran+4) != 1 || vsched.Ctr(c17Ran+8) != 1 {
+				fail("C17.nil-result", "call 2 returned nil although not all of its functions have returned yet (returned: %d, %d)", vsched.Ctr(c17Ran+4), vsched.Ctr(c17Ran+8))
+			}
+			vsched.Settle()
+		},
+	})
+	eng.Register(&eng.Scenario{
 		Name: "ccall-0-1", Props: []string{"C17"}, MustFinish: true, ObsNames: stdObs,
 		Doc:   "CallConcurrently with 0 and 1 functions (every outcome incl. a nil entry), caller-cancel thread",
 		Quick: eng.Bounds{PB: 3}, Thorough: eng.Bounds{PB: 6},
